@@ -1268,6 +1268,7 @@ void gp_wcs_fold_utf8(
 
             default:
             if      (0x13F8 <= encoding && encoding <= 0x13FD) GP_wcs_APPEND(encoding - 0x8);
+            else if (0x13A0 <= encoding && encoding <= 0x13F5) GP_wcs_APPEND(encoding); // Cherokee folds to uppercase
             else if (0x1F80 <= encoding && encoding <= 0x1F87) GP_wcs_APPEND(encoding - 0x80, 0x03B9);
             else if (0x1F88 <= encoding && encoding <= 0x1F8F) GP_wcs_APPEND(encoding - 0x88, 0x03B9);
             else if (0x1F90 <= encoding && encoding <= 0x1F97) GP_wcs_APPEND(encoding - 0x70, 0x03B9);
